@@ -3,3 +3,4 @@ import Drv.Diag
 import Drv.Slice
 import Drv.Bonf
 import Drv.DepGraph
+import Drv.EnvP
